@@ -172,7 +172,10 @@ def normalise(tree, ref=None):
         for op, i1, i2, j1, j2 in difflib.SequenceMatcher(None, want, cur, autojunk=False).get_opcodes():
             if op == "replace" and (i2 - i1) == (j2 - j1):
                 for k in range(i2 - i1):
-                    mapping[cur[j1 + k]] = want[i1 + k]
+                    # a rename replaces a reference name that is now missing by a name the reference does not know: a name that is itself a reference
+                    # name was not renamed (the function gained or lost locals around it - an older or a repaired tree - and the diff merely paired them up)
+                    if cur[j1 + k] not in want and want[i1 + k] not in cur:
+                        mapping[cur[j1 + k]] = want[i1 + k]
         if not mapping:
             continue
         mapping = {a: b for a, b in mapping.items() if b in mapping or not _captures(fn, a, b, top=True)}      # capture-free (simultaneous substitution)
